@@ -48,11 +48,20 @@ func (c *pollCtx) wantCode() Code {
 type ctxBody struct {
 	r   io.Reader
 	ctx *pollCtx
+	// firstChunk > 0: the first Read delivers at most that many bytes (the
+	// transport split the first envelope prefix), so that the cancellation
+	// instant can fall inside a partially delivered prefix.
+	firstChunk int
+	reads      int
 }
 
 func (b *ctxBody) Read(p []byte) (int, error) {
 	if err := b.ctx.Err(); err != nil {
 		return 0, err
+	}
+	b.reads++
+	if b.reads == 1 && b.firstChunk > 0 && len(p) > b.firstChunk {
+		p = p[:b.firstChunk]
 	}
 	return b.r.Read(p)
 }
@@ -62,9 +71,10 @@ func (b *ctxBody) Close() error { return nil }
 // done, Do fails with the context error (optionally wrapped as net/http does)
 // and response bodies fail with it.
 type c15Transport struct {
-	inner *stackTransport
-	ctx   *pollCtx
-	wrap  bool
+	inner      *stackTransport
+	ctx        *pollCtx
+	wrap       bool
+	firstChunk int
 }
 
 type c15URLError struct{ err error }
@@ -83,7 +93,7 @@ func (t *c15Transport) Do(req *http.Request) (*http.Response, error) {
 	if err != nil {
 		return nil, err
 	}
-	resp.Body = &ctxBody{r: resp.Body, ctx: t.ctx}
+	resp.Body = &ctxBody{r: resp.Body, ctx: t.ctx, firstChunk: t.firstChunk}
 	return resp, nil
 }
 
@@ -104,7 +114,7 @@ func c15Check(ctx *pollCtx, err error, op string, eofOK bool) {
 //verif:harness property=C15 stubs=json,wire shard=proto:3
 func HarnessC15Client() {
 	proto := nondetChoice("proto", 3)
-	call := nondetChoice("call", 3)
+	call := nondetChoice("call", 4)
 	ctx := &pollCtx{kind: nondetChoice("kind", 2)}
 	ctx.at = nondetInt("at")
 	assume(ctx.at >= 0 && ctx.at <= bound("polls", 8, 12))
@@ -121,6 +131,21 @@ func HarnessC15Client() {
 			}
 			return nil
 		}, stackHandlerOptions()...)
+	case 3:
+		handler = NewBidiStreamHandler("/pkg.Svc/Method", func(c context.Context, s *BidiStream[[]byte, []byte]) error {
+			for {
+				m, err := s.Receive()
+				if err != nil {
+					if errors.Is(err, io.EOF) {
+						return nil
+					}
+					return err
+				}
+				if err := s.Send(m); err != nil {
+					return err
+				}
+			}
+		}, stackHandlerOptions()...)
 	default:
 		handler = NewClientStreamHandler("/pkg.Svc/Method", func(c context.Context, s *ClientStream[[]byte]) (*Response[[]byte], error) {
 			n := byte(0)
@@ -131,7 +156,7 @@ func HarnessC15Client() {
 			return NewResponse(&out), s.Err()
 		}, stackHandlerOptions()...)
 	}
-	tr := &c15Transport{inner: &stackTransport{handler: handler}, ctx: ctx, wrap: nondetBool("wrapped")}
+	tr := &c15Transport{inner: &stackTransport{handler: handler}, ctx: ctx, wrap: nondetBool("wrapped"), firstChunk: nondetChoice("firstChunk", 5)}
 	client := NewClient[[]byte, []byte](tr, stackURL, stackClientOptions(proto)...)
 	in := []byte{7}
 	switch call {
@@ -161,6 +186,41 @@ func HarnessC15Client() {
 			check(n == 2, "a stream that ends cleanly delivered every message")
 		}
 		c15Check(ctx, stream.Close(), "Close", false)
+	case 3:
+		// bidi, driven by hand: the response side is used without closing the
+		// request side first (the request side was started by Send)
+		stream := client.CallBidiStream(ctx)
+		serr := stream.Send(&in)
+		c15Check(ctx, serr, "Send", true)
+		closedEarly := false
+		if serr == nil {
+			// the transport model is half duplex: with the request still open
+			// and the handler waiting for more, Receive could only return
+			// through net/http's own cancellation, which is outside the model
+			c15Check(ctx, stream.CloseRequest(), "CloseRequest", true)
+			closedEarly = true
+		}
+		n := 0
+		for {
+			_, err := stream.Receive()
+			if err != nil {
+				if !(serr == nil && errors.Is(err, io.EOF)) {
+					c15Check(ctx, err, "Receive", false)
+					check(!errors.Is(err, io.EOF) || !ctx.cancelled() || serr == nil, "after a Send interrupted by cancellation Receive reports the context's code")
+				}
+				break
+			}
+			n++
+			// half-duplex transport: the echo arrives once the request side is closed
+			if n > 2 {
+				check(false, "the receive loop terminates")
+				return
+			}
+		}
+		if !closedEarly {
+			c15Check(ctx, stream.CloseRequest(), "CloseRequest", true)
+		}
+		c15Check(ctx, stream.CloseResponse(), "CloseResponse", false)
 	default:
 		stream := client.CallClientStream(ctx)
 		sendFailed := false
